@@ -7,6 +7,7 @@ import Lean.Data.Json
 import SqlLineage.IO.Config
 import SqlLineage.IO.Graph
 import SqlLineage.IO.Sql
+import SqlLineage.IO.PathSec
 
 open Lean
 
@@ -19,7 +20,10 @@ def handlers : List (String × (Json → Except String Json)) := [
   ("asm", SqlLineage.IO.Graph.handleAsm),
   ("sql", SqlLineage.IO.Sql.handleSql),
   ("render", SqlLineage.IO.Sql.handleRender),
-  ("dispatch", SqlLineage.IO.Sql.handleDispatch)
+  ("dispatch", SqlLineage.IO.Sql.handleDispatch),
+  ("path", SqlLineage.IO.PathSec.handleOne),
+  ("pathbatch", SqlLineage.IO.PathSec.handleBatch),
+  ("pathlib", SqlLineage.IO.PathSec.handlePathlib)
 ]
 
 def handleLine (line : String) : String :=
